@@ -6,7 +6,7 @@
    to X == X at large coordinates is decided by the double / float sweep of the check (known finding F7). *)
 From Coq Require Import Reals List Lra.
 From Manif Require Import Scalar Mat Group RInst Generic LieSpec SO2 SE2 SO3 SE3 SE23 SGal3 Rn
-  SE2Proofs SO3Proofs SE23Proofs RnProofs Approx Approx_Inst Sym_SE2.
+  SE2Proofs SO3Proofs SE23Proofs RnProofs Approx Approx_Inst Sym_SE2 Sym_SE3.
 Import ListNotations.
 Local Open Scope R_scope.
 
@@ -67,6 +67,11 @@ Theorem C18_sym_SE2 eps X Y e : 0 < eps -> se2_valid X -> se2_valid Y -> 0 < e -
      ~ (i = 0 /\ r < 0) /\ eps <= atan2 i r * atan2 i r) ->
   g_isApprox (SE2 RS eps) X Y e = g_isApprox (SE2 RS eps) Y X e.
 Proof. intros H. exact (se2_isApprox_sym eps H X Y e). Qed.
+(* SE3: symmetric whenever the relative element is on the closed-form branch of log and not a half turn *)
+Theorem C18_sym_SE3 eps X Y e : 0 < eps -> se3_valid X -> se3_valid Y -> 0 < e ->
+  (forall tx ty tz x y z w, g_compose (SE3 RS eps) (g_inverse (SE3 RS eps) Y) X = [tx; ty; tz; x; y; z; w] -> eps < x * x + y * y + z * z /\ w <> 0) ->
+  g_isApprox (SE3 RS eps) X Y e = g_isApprox (SE3 RS eps) Y X e.
+Proof. intros H. exact (se3_isApprox_sym eps H X Y e). Qed.
 (* any group: symmetric whenever log(Z^-1) = -log(Z) for the relative element Z = Y^-1 X *)
 Theorem C18_sym_generic (G : GroupOps RS) (C : GroupCore G) X Y e : gc_valid C X -> gc_valid C Y -> 0 < e ->
   length (rminus_val G X Y) = g_dof G ->
